@@ -39,9 +39,16 @@ MANIFEST = {
             "lemmas: unify_data_total (every registered variable's class has a data entry after unify) and "
             "abi_type_for_respects_classes. The check evaluates `order_fragment` inside Coq on the judgement set of EVERY program "
             "(completed with the empty entries the dump omits) and reports an order dependence observed inside the fragment under its "
-            "own code C02:fragment. Not proved: invariance of the front half (collection, registration, inference) under the "
-            "renaming of type variables that a different visiting order causes -- the theorems fix the judgement set -- and order "
-            "independence up to renaming of fresh variables for packed encodings outside the known classes (partial).",
+            "own code C02:fragment. At the registration and rule stages order independence is PROVED for all inputs "
+            "(props/C02_register.v): register_order (registering a permutation of the value list gives the same typed trees, "
+            "expression table and counter up to a bijective renaming of the type variables), infer_order (that renaming, extended to "
+            "the variables the mapping rule allocates, commutes with the 16 rules: judgement sets correspond variable by variable) and "
+            "infer_rule_order_independent (any permutation of the rule set gives the same counter, table and judgement sets, no "
+            "renaming needed: only one rule allocates, none reads the inference sets); both are also evaluated on the real "
+            "register / InferenceRules::infer with permuted value lists and with the rule set walked sorted, reversed, seeded and in "
+            "its own hash order (TcCases.check_order, check_rules_perm, check_rule_order). Not proved: the composition of these "
+            "stage theorems across the renaming (the back-half theorems fix the judgement set), the order of value collection, and "
+            "order independence up to renaming of fresh variables for packed encodings outside the known classes (partial).",
     "note": "Trusted: Coq kernel; hooks H1/H2 (guarded, add-only); harness. Natural-order nondeterminism is sampled, forced orders are "
             "deterministic and replayable.",
     "technique": "forced-iteration-order differential search on the real code (hook H1) + Coq classification of order dependences by "
@@ -63,6 +70,7 @@ def check(ctx):
     vlib.translate(ctx)
     vlib.prove(ctx, "props/C02.v", ["OrderCases.vo", "OrderUnifyCases.vo"])
     vlib.prove(ctx, "props/C02_unify.v")   # the unification stage: order independence on the order-free fragment
+    vlib.prove(ctx, "props/C02_register.v", ["TcCases.vo"])   # registration and rule stages: order of values / of rules
     vlib.prove(ctx, "props/C02_pipeline.v", ["OrderPipelineCases.vo"])   # unify + layout loop on the composed model
     hb = vlib.harness_bin(ctx)
     rng = ctx.rng
@@ -149,5 +157,9 @@ def check(ctx):
                              "programs": len(keys), "orders": ORDERS, "order_dependent_programs": len(nondet),
                              "fragment": frag_cov,
                              "input_classes": dict(collections.Counter(progs.values()))})
+    import p_tc_stages as TS
+    TS.suite(ctx, translate=False, parts=("order", "rule-order", "rulesperm"),
+             codes={"order": {12, 15}, "rule": {11, 12, 16}, "rulesperm": {11, 12, 17}}, cov_key="tc_stages",
+             only=r"^(register_order|infer_order|infer_rule_order|rules_equivariant|rules_pure)")
     return vlib.finish(ctx, rule="programs x 8 iteration orders (2 natural runs + 6 forced); non-trivial = the analysis produced a layout "
                        "with at least one entry", samples=[c.hex()[:100] for c in keys[:3]])
